@@ -217,7 +217,11 @@ func (b *BitMatrix) Rotate180() {
 		}
 	}
 
-	if shift := uint(b.width % 32); shift != 0 {
+	if shift := uint(b.width % 32); shift == 0 {
+		for i := range b.bits {
+			b.bits[i] = bits.Reverse32(b.bits[i])
+		}
+	} else {
 		for i := 0; i < height; i++ {
 			offset := rowSize * i
 			b.bits[offset] = bits.Reverse32(b.bits[offset]) >> uint(32-shift)
